@@ -76,24 +76,34 @@ def run(ctx, rep):
     # ------------------------------------------------------------------ R2 all controls, one handler
     vc = prog.own_method("Transaction", "_validate_controls")
     cfg = ctx.cfg(vc)
-    tries = walk_nodes(vc.node.body, ast.Try)
     from sa.kinds import sbody
-    good = len(tries) == 1 and len(sbody(vc.node.body)) == 1
+    want_iters = {"self.market.flumine.trading_controls", "self._client.trading_controls"}
+    loops = [lp for lp in walk_nodes(vc.node.body, ast.For) if utext(lp.iter) in want_iters]
+    good = {utext(lp.iter) for lp in loops} == want_iters and len(loops) == 2
+    inits = []
+    for lp in loops:
+        calls = [c for c in walk_calls(lp.body)]
+        calls = [c for c in calls if not (isinstance(c.func, ast.Attribute) and utext(c.func.value) == "logger")]
+        good = good and len(sbody(lp.body)) == 1 and len(calls) == 1 and utext(calls[0].func) == utext(lp.target) \
+            and [utext(a) for a in calls[0].args] == vc.params[1:3] and not loop_body_exits_early(lp)
+        li = [x for x in cfg.live_nodes() if x.kind == "for_init" and x.ast is lp]
+        good = good and len(li) == 1 and not cfg.guards(li[0].id)
+        inits += li
     if good:
-        t = tries[0]
-        loops = [s for s in sbody(t.body) if isinstance(s, ast.For)]
-        iters = [utext(lp.iter) for lp in loops]
-        good = (set(iters) == {"self.market.flumine.trading_controls", "self._client.trading_controls"}
-                and len(sbody(t.body)) == len(loops) == 2)
-        for lp in loops:
-            calls = [c for c in walk_calls(lp.body)]
-            calls = [c for c in calls if not (isinstance(c.func, ast.Attribute) and utext(c.func.value) == "logger")]
-            good = good and len(sbody(lp.body)) == 1 and len(calls) == 1 and utext(calls[0].func) == utext(lp.target) \
-                and [utext(a) for a in calls[0].args] == vc.params[1:3] and not loop_body_exits_early(lp)
-        hs = t.handlers
-        good = good and len(hs) == 1 and utext(hs[0].type) == "ControlError" and \
-            [utext(s) for s in sbody(hs[0].body)] == ["return False"]
-        good = good and [utext(s) for s in sbody(t.orelse)] == ["return True"] and not t.finalbody
+        rets = [x for x in cfg.live_nodes() if x.kind == "return"]
+        handlers = [x for x in cfg.live_nodes() if x.kind == "except"]
+        good = len(handlers) == 1 and utext(handlers[0].ast.type) == "ControlError" and \
+            {utext(x.ast.value) if x.ast.value is not None else "None" for x in rets} == {"True", "False"}
+        for x in rets:
+            if utext(x.ast.value) == "False":
+                # refused: only out of the ControlError handler
+                good = good and cfg.dominates(handlers[0].id, x.id)
+            else:
+                # passed: only after both lists were run through without a ControlError
+                done = [(n_.id, "done") for n_ in cfg.live_nodes() if n_.kind == "for" and n_.ast in loops]
+                good = good and all(cfg.dominates(i_.id, x.id) for i_ in inits) and \
+                    handlers[0].id not in {a for a in cfg.reachable(cfg.entry) if cfg.dominates(a, x.id)}
+        good = good and cfg.exit not in {m for n_ in cfg.live_nodes() if n_.kind not in ("return",) for l, m in n_.succ}
     rep.check(good, "R2", key(vc, None, "every flumine and client control is called; ControlError => False, else True"), vc)
 
     # ------------------------------------------------------------------ R3 default registration
